@@ -69,7 +69,7 @@ func vfC12(w *vfWorld) {
 	idp := w.StartIdP()
 	idp.Rotate = t.Bool("c12.rotate")
 	cs.Rotate = idp.Rotate
-	cs.Refresh = []string{"ok", "fail", "none"}[t.Weighted("c12.refresh", 6, 2, 1)]
+	cs.Refresh = []string{"ok", "fail", "none", "forged"}[t.Weighted("c12.refresh", 6, 2, 1, 1)]
 	if cs.Provider == "plain" {
 		cs.Refresh = "unsupported"
 	}
@@ -128,6 +128,16 @@ func vfC12(w *vfWorld) {
 			return lat
 		}
 		return 0
+	}
+	if cs.Refresh == "forged" {
+		// the token endpoint answers the refresh with an ID token that does not verify (signed by a key the issuer does
+		// not publish) and names somebody else: nothing of it may ever be honoured, under any interleaving
+		idp.Mint = func(m *vfMintCtx) {
+			if m.Kind == "refresh" && m.Claims != nil {
+				m.Sign.Key = 3
+				m.Claims["email"], m.Claims["sub"], m.Claims["preferred_username"] = "admin@example.com", "sub-admin", "admin"
+			}
+		}
 	}
 	if cs.Refresh == "fail" {
 		idp.Plan = func(c *vfIdpCall) vfIdpFault {
@@ -279,6 +289,17 @@ func vfC12(w *vfWorld) {
 	}
 
 	stale = allStale
+	// identity: whatever the interleaving and the faults, an upstream hit of this browser carries alice's identity
+	for i, tr := range results {
+		if tr.resp == nil {
+			continue
+		}
+		for _, h := range tr.resp.UpHits {
+			if em := h.Get("X-Forwarded-Email"); em != "alice@example.com" {
+				w.violate("C12", "foreign-identity-served", cs.Refresh, "task T%d reached the upstream as %q (user %q): the session belongs to alice; refresh behaviour %q", i+1, em, h.Get("X-Forwarded-User"), cs.Refresh)
+			}
+		}
+	}
 	// ---- (a)/(b): safety, asserted in every run including faulty ones ----
 	for i, tr := range results {
 		if tr.resp == nil || !tr.stale {
